@@ -95,6 +95,16 @@ CHECKS = {
    text='All unordered rooted trees on n<=4 (quick) / n<=5 (thorough) directories, each directory optionally holding one directory symlink to any directory (all (n+1)^n link sets: self, parent, ancestor, root, sibling, descendant, mutual pairs, chains, diamonds) x IGNORE on the link / on an ancestor / on paths reached through links x sub-path starts x 5 walkers (verify strict, verify keep-going, unregistered-Manifest scan, update+save+fresh verify, gemato create), each under a scandir-call budget that turns non-termination into a violation: loop back to an ancestor on the current path outside IGNOREd paths -> ManifestSymlinkLoop from every walker, otherwise termination with files behind links treated like any others. Second family on a REAL second filesystem (/dev/shm vs tempdir): foreign directory/file/empty dir/loop through the other device/equal inode number at every position x IGNORE x allow_xdev x library and CLI walkers -> ManifestCrossDevice iff crossing disallowed and not IGNOREd.',
    note='Trusted: the graph-model oracle in the harness (cross-checked against a disk DFS with real (st_dev, st_ino)); the equal-inode kind is the only virtual part (os proxy). DONT_CARE: which loop is reported first, the level of detection, sub-path starts that re-enter the tree root. Bound 5 directories (statement says up to 6); one link per directory.',
    ref='DESIGN.md §3 C16'),
+ 'C19': dict(level='model_checking',
+   technique='exhaustive enumeration of repository shapes (component subsets x category/package grids) x profiles x overrides x create/edit/update sequences x scandir orders on the real create/update vs an independent restatement of the profile policy',
+   text='3.2k (quick) / 74k (thorough) ebuild-repository-shaped trees: every subset of per-package components for a varying package on category x package grids, all-alike grids, every subset of metadata components and of the other repository-level components, look-alike extras; each created with the default, ebuild and old-ebuild profile (old-ebuild under sorted and reversed directory enumeration), with -H/-c/sort overrides incl. watermarks at S and S+1 for a real sub-Manifest size S, and followed by edit+update and profile-P-then-profile-Q sequences. Oracle: exact set of directories holding a Manifest, default IGNORE lines, entry tags (EBUILD/MISC/AUX under old-ebuild), package Manifests uncompressed, default hashes/sort/watermark 128, and verification with a default-profile loader (gemato and gverif/refverify).',
+   note='Trusted: the policy restatement inside props/c19.py (does not import gemato.profile), refverify. DONT_CARE: trees where an IGNOREd-by-default name is already listed in a parent (deliberate NotImplementedError); AUX tag when the closest Manifest is not the package Manifest.',
+   ref='DESIGN.md §3 C19'),
+ 'C20': dict(level='translation_validation',
+   technique='exhaustive enumeration of repository shapes through the two generator scripts (as subprocesses), then reference verification, exact-coverage check, no-op update under a write-audit seam, and all edit sets up to size 2 (3) followed by update and verify',
+   text='278 (quick) / 2019 (thorough) repositories: gen_fast_metamanifest on each whole repository and gen_fast_manifest on every eligible directory bottom-up (4094 generator runs quick); then gemato verify exits 0, the reference verdict is match with no path covered twice and BLAKE2B+SHA512 on every entry, gemato update -p ebuild on the untouched tree writes nothing, and every set of <=2 (quick) / <=3 (thorough) edits from 12 atoms (change/add/delete x package file, eclass file, metadata/glsa file, top-level file) followed by update -p ebuild and a fresh verify exits 0/0 (12k cases quick).',
+   note='Trusted: refverify/refmanifest, sys.addaudithook. Shapes lacking the directories the scripts assume are out of scope. DONT_CARE for the no-op check only: categories without packages, non-category top-level directories containing sub-directories. The statement\'s 0..5 edits are cut to the stated bound.',
+   ref='DESIGN.md §3 C20'),
 }
 NOT_YET = {}
 
